@@ -16,7 +16,8 @@ use crate::common::frame::{FrameWriter, FramedReader};
 use crate::common::phys::PhysLayer;
 use crate::decode::DecodeLevel;
 use crate::error::{RequestError, Shutdown};
-use crate::server::task::{AuthorizationType, ServerCommand, SessionTask};
+pub use crate::server::task::ServerCommand;
+use crate::server::task::{AuthorizationType, SessionTask};
 use crate::server::{AddressFilter, AuthorizationHandler, RequestHandler, ServerHandlerMap};
 
 /// Transport that the harness supplies
@@ -212,8 +213,6 @@ pub use crate::tcp::server::verif_tracker::VerifTracker;
 
 #[cfg(feature = "enable-tls")]
 pub use crate::tcp::tls::server::verif_role::extract_role_from_der;
-
-pub use crate::server::task::ServerCommand;
 
 impl VerifClient {
     /// `ClientLoop::fail_requests`
